@@ -2,12 +2,12 @@
    In the model the searches see geos only as positions in the canonical order and scores only
    through comparisons: the theorems below say that any two score oracles agreeing on every
    comparison (scores before / after a positive rescaling of the response; score tuples / their
-   dense ranks) give the same result, for the bounded heap and for the whole exhaustive search.
+   dense ranks) give the same result, for the bounded heap, the whole exhaustive search and the whole greedy search.
    Row order, date offsets, ID dtype and renamings act on the canonical data object (C15) and are
    decided here by executed metamorphic pairs. *)
 From Coq Require Import List Arith ZArith Bool.
 From MM Require Import lib.ListSet lib.Values model.Heap model.Elig model.SearchParams model.SearchDefs model.Search
-  proofs.OrderIso.
+  gen.Gen_HeapDict gen.Gen_Exhaustive proofs.OrderIso proofs.OrderIsoGreedy proofs.ExhaustiveBridge.
 Import ListNotations.
 
 Theorem C12_heap_depends_on_comparisons_only :
@@ -25,5 +25,27 @@ Theorem C12_exhaustive_depends_on_comparisons_only :
     (forall T C T' C', ltk (skey T C) (skey T' C') = ltk' (skey' T C) (skey' T' C')) ->
     exhaustive O ltk A par shareS optB bud skey = exhaustive O ltk' A par shareS optB bud skey'.
 Proof. exact @exhaustive_order_iso. Qed.
+(* the greedy hill climb compares only the all-zero start score and scores of candidate designs *)
+Theorem C12_greedy_depends_on_comparisons_only :
+  forall (V K K' : Type) (O : vops V) (ltk : K -> K -> bool) (ltk' : K' -> K' -> bool)
+         (A : assignments) (par : spar V) (shareS : set -> V) (bud : set -> set -> V)
+         (gkey : set -> set -> K) (gkey' : set -> set -> K') (zero_key : K) (zero_key' : K'),
+    (forall a a' b b', corr gkey gkey' zero_key zero_key' a a' -> corr gkey gkey' zero_key zero_key' b b' ->
+                       ltk a b = ltk' a' b') ->
+    forall fuel, greedy O ltk A par shareS bud gkey zero_key fuel = greedy O ltk' A par shareS bud gkey' zero_key' fuel.
+Proof. exact @greedy_order_iso. Qed.
+(* stated on the Gallina regenerated on this run from exhaustive_search itself: the groups it returns are those of
+   the model, hence depend on the scores only through comparisons *)
+Theorem C12_translated_exhaustive_search_depends_on_comparisons_only :
+  forall (V K K' : Type) (O : vops V) (ltk : K -> K -> bool) (ltk' : K' -> K' -> bool)
+         (A : assignments) (par : spar V) (shareS optB : set -> V) (bud : set -> set -> V)
+         (score0 : set -> set -> K) (replace_inv : K -> V -> K) (score0' : set -> set -> K') (replace_inv' : K' -> V -> K'),
+    (forall T C T' C', ltk (stored_key O par bud score0 replace_inv T C) (stored_key O par bud score0 replace_inv T' C')
+                       = ltk' (stored_key O par bud score0' replace_inv' T C) (stored_key O par bud score0' replace_inv' T' C')) ->
+    map (@des_groups K) (dd_get (gen_exhaustive_search O ltk A par shareS optB bud score0 replace_inv) 0%Z)
+    = map (@des_groups K') (dd_get (gen_exhaustive_search O ltk' A par shareS optB bud score0' replace_inv') 0%Z).
+Proof. intros. rewrite !gen_exhaustive_groups. apply exhaustive_order_iso. assumption. Qed.
 Print Assumptions C12_heap_depends_on_comparisons_only.
 Print Assumptions C12_exhaustive_depends_on_comparisons_only.
+Print Assumptions C12_greedy_depends_on_comparisons_only.
+Print Assumptions C12_translated_exhaustive_search_depends_on_comparisons_only.
